@@ -258,8 +258,82 @@ fn check_case(rep: &Report, case: &Case, labels: &[String], local: &mut Local) {
 
 /// Frames built with public constructors over every header code class, and streams with extra
 /// metadata blocks.
+/// LPC subframes built with the public constructors whose *prediction* leaves the 32-bit range while
+/// every residual and every sample stays inside its range (valid FLAC: only residuals are limited to
+/// 32 bits). The encoder can emit such subframes for ill-conditioned blocks; here they are written
+/// down directly. Signal: [x0, s1, 0, 0, ...] with |coef * x0| >> shift just beyond 2^31.
+fn run_wide_predictions(rep: &Arc<Report>, local: &mut Local) {
+    use flacenc::component::{Lpc, QuantizedParameters, Residual};
+    // (coefficients, shift, warm-up samples, following samples)
+    let specs: Vec<(Vec<i16>, i8, Vec<i32>, Vec<i32>)> = vec![
+        (vec![16383], 0, vec![131_081], vec![20_000, 0, 0, -5]),
+        (vec![-16384], 0, vec![131_073], vec![-20_000, 0, 0, 7]),
+        (vec![16383, -16384], 0, vec![0, 131_081], vec![20_000, 0, 0, 0]),
+        (vec![-16384, 1], 0, vec![0, 131_073], vec![-20_000, 0, 0, 0]),
+        // a prediction far inside the range, as a control
+        (vec![100], 0, vec![1000], vec![100_000, 0, 0, 0]),
+    ];
+    for (coefs, shift, warm, rest) in &specs {
+        let bs = 16usize;
+        let order = coefs.len();
+        let mut x: Vec<i64> = warm.iter().map(|&v| v as i64).collect();
+        for k in 0..bs - order {
+            x.push(*rest.get(k).unwrap_or(&0) as i64);
+        }
+        // residuals by exact arithmetic
+        let mut res = vec![0i64; bs];
+        let mut wide = false;
+        for t in order..bs {
+            let mut acc = 0i64;
+            for (j, c) in coefs.iter().enumerate() {
+                acc += *c as i64 * x[t - 1 - j];
+            }
+            let pred = acc >> *shift;
+            if pred > i32::MAX as i64 || pred < i32::MIN as i64 {
+                wide = true;
+            }
+            res[t] = x[t] - pred;
+            assert!(res[t] > i32::MIN as i64 && res[t] <= i32::MAX as i64, "harness: residual out of range");
+        }
+        let p = 14u32;
+        let mut q = vec![0u32; bs];
+        let mut r = vec![0u32; bs];
+        for t in order..bs {
+            let u: u64 = if res[t] >= 0 { (res[t] as u64) << 1 } else { (((-res[t]) as u64) << 1) - 1 };
+            q[t] = (u >> p) as u32;
+            r[t] = (u & ((1 << p) - 1)) as u32;
+        }
+        let cj = || json!({"constructed_lpc_subframe": {"coefficients": coefs, "shift": shift, "warm_up": warm, "then": rest}});
+        local.evals += 1;
+        let built = panicx::catch(|| -> Result<SubFrame, String> {
+            let residual = Residual::new(0, bs, order, &[p as u8], &q, &r).map_err(|e| format!("{e:?}"))?;
+            let qp = QuantizedParameters::new(coefs, order, *shift, 15).map_err(|e| format!("{e:?}"))?;
+            Ok(Lpc::new(warm, qp, residual, 24).map_err(|e| format!("{e:?}"))?.into())
+        });
+        match built {
+            Ok(Ok(sf)) => {
+                if wide {
+                    local.count("constructed_lpc_subframes_with_prediction_beyond_32_bits", 1);
+                }
+                check_subframe(rep, local, &sf, bs, 24, &cj, 1, "constructed LPC subframe");
+                // the decoded signal must be the one the residuals were computed from
+                if let Ok(d) = panicx::catch(|| sf.decode()) {
+                    let want: Vec<i32> = x.iter().map(|&v| v as i32).collect();
+                    if d != want {
+                        rep.violation("subframe_decode_differs|lpc_wide_prediction", "constructed LPC subframe: Decode::decode does not return the signal the residuals were computed from (exact arithmetic)", cj(), 1);
+                    }
+                }
+                local.nontrivial.insert(crate::universe::fnv(&format!("{coefs:?}{shift}{warm:?}")));
+            }
+            Ok(Err(e)) => local.outcome(&format!("constructed_lpc_rejected:{}", e.chars().take(40).collect::<String>())),
+            Err(p) => rep.violation(&format!("constructed_lpc_{}", p.class()), &format!("constructing the LPC subframe panicked: {}", p.describe()), cj(), 1),
+        }
+    }
+}
+
 fn run_constructed(rep: &Arc<Report>) {
     let mut local = Local::default();
+    run_wide_predictions(rep, &mut local);
     let mut numbers: Vec<u32> = vec![0, 1];
     for b in [7u32, 11, 16, 21, 26, 31] {
         let c = 1u64 << b;
@@ -336,7 +410,7 @@ fn run_constructed(rep: &Arc<Report>) {
         }
     }
     rep.merge(local);
-    rep.add_rule("constructed frames: block sizes (universe list + code-class representatives) x rate list x (bps,channels) x every channel assignment, frame numbers at every coded-length boundary for one spec; streams with 1-3 extra unknown metadata blocks (types 1,2,126; sizes 0,1,255,65536)");
+    rep.add_rule("constructed LPC subframes whose prediction leaves the 32-bit range while residuals and samples stay inside theirs (4 + 1 control); constructed frames: block sizes (universe list + code-class representatives) x rate list x (bps,channels) x every channel assignment, frame numbers at every coded-length boundary for one spec; streams with 1-3 extra unknown metadata blocks (types 1,2,126; sizes 0,1,255,65536)");
 }
 
 pub fn run(args: &Args, rep: &Arc<Report>) {
@@ -345,7 +419,7 @@ pub fn run(args: &Args, rep: &Arc<Report>) {
         let s = std::fs::read_to_string(p).unwrap_or_default();
         let v: Value = serde_json::from_str(&s).unwrap_or(Value::Null);
         let c = v.get("case").cloned().unwrap_or(v);
-        if c.get("constructed_frame").is_some() || c.get("stream_with_metadata").is_some() {
+        if c.get("constructed_frame").is_some() || c.get("stream_with_metadata").is_some() || c.get("constructed_lpc_subframe").is_some() {
             run_constructed(rep);
             rep.set_rule("replay: constructed-frame grid re-run");
             return;
